@@ -599,6 +599,34 @@ class StructRun(object):
         SUBST = [(b"Name", b"Link"), (b"Object Group", b"Usage Limits"), (b"Initial Date", b"Usage Limits"),
                  (b"State", b"Fresh"), (b"Sensitive", b"Lease Tim")]
         n = poisons = 0
+
+        def odd_spellings():
+            """the library's name <-> tag tables are asked for spellings of attribute names they may or may not accept
+            (another capitalisation), by name and through an encode attempt under KMIP 2.0"""
+            from kmip.core import enums as _e, objects as _o, primitives as _p, utils as _u
+            k = 0
+            for a in list(_e.AttributeType)[:60]:
+                nm = a.value
+                for v in (nm.lower(), nm.upper(), nm.capitalize(), nm.title(), nm.swapcase()):
+                    if v == nm:
+                        continue
+                    k += 1
+                    try:
+                        _e.convert_attribute_name_to_tag(v)
+                    except BaseException:
+                        pass
+                    try:
+                        t = _o.TemplateAttribute(attributes=[_o.Attribute(
+                            attribute_name=_o.Attribute.AttributeName(v),
+                            attribute_value=_p.TextString("x", tag=_e.Tags.ATTRIBUTE_VALUE))])
+                        _o.convert_template_attribute_to_attributes(t).write(_u.BytearrayStream(),
+                                                                           kmip_version=_e.KMIPVersion.KMIP_2_0)
+                    except BaseException:
+                        pass
+            return k
+        # A: decode everything once;  B: show the decoder / the library's tables every near relative and odd spelling;
+        # C: decode everything again
+        first = []
         for (c, vn, b) in sample:
             f = IC.factory_for_class(byname[c])
             v = IC.vof(vn)
@@ -606,6 +634,8 @@ class StructRun(object):
                 d1, left1 = IC.dec(f, b, v)
             except Exception:
                 continue
+            first.append((c, vn, b, f, v, d1, left1))
+        for (c, vn, b, f, v, d1, left1) in first:
             ps = [b.replace(x, y) for x, y in SUBST if x in b]
             for k in (len(b) // 3, len(b) - 5):
                 if 8 <= k < len(b):
@@ -618,6 +648,8 @@ class StructRun(object):
                     IC.dec(f, q, v)
                 except BaseException:
                     pass
+        poisons += odd_spellings()
+        for (c, vn, b, f, v, d1, left1) in first:
             n += 1
             self.evaluations += 1
             try:
@@ -625,16 +657,18 @@ class StructRun(object):
             except Exception as e:
                 self.findings.append(Finding(
                     "c01:decoder-remembers:%s" % c,
-                    "%s under KMIP %s: bytes that were decoded a moment ago are refused (%s: %s) after the decoder was shown %d "
-                    "near relatives of them" % (c, vn, type(e).__name__, str(e)[:120], len(ps)),
-                    {"kind": "purity", "class": c, "version": vn, "hex": b.hex(), "poisons": [q.hex() for q in ps]}))
+                    "%s under KMIP %s: bytes that were decoded a moment ago are refused (%s: %s) after the decoder was shown "
+                    "near relatives of the run's messages and odd spellings of attribute names"
+                    % (c, vn, type(e).__name__, str(e)[:120]),
+                    {"kind": "purity", "class": c, "version": vn, "hex": b.hex(), "poisons": []}))
                 continue
             if left1 != left2 or IC.diff(d1, d2):
                 self.findings.append(Finding(
                     "c01:decoder-remembers:%s" % c,
-                    "%s under KMIP %s: the same bytes decode to something else after the decoder was shown %d near relatives "
-                    "of them" % (c, vn, len(ps)),
-                    {"kind": "purity", "class": c, "version": vn, "hex": b.hex(), "poisons": [q.hex() for q in ps]}))
+                    "%s under KMIP %s: the same bytes decode to something else (%s) after the decoder was shown near "
+                    "relatives of the run's messages and odd spellings of attribute names"
+                    % (c, vn, str(IC.diff(d1, d2))[:160]),
+                    {"kind": "purity", "class": c, "version": vn, "hex": b.hex(), "poisons": []}))
         self.stats["purity_messages"] = n
         self.stats["purity_poison_frames"] = poisons
 
